@@ -139,6 +139,8 @@ theorem conOk_hook (c : Con) (h : ConOk c) (nonce : Nat) (res : Bool) (v e : Nat
     refine conOk_frame c _ h ?_ ?_ ?_ ?_ ?_ (hook_pc c nonce res v e) <;> (unfold hook; rw [hop])
   | resolve =>
     refine conOk_frame c _ h ?_ ?_ ?_ ?_ ?_ (hook_pc c nonce res v e) <;> (unfold hook; rw [hop])
+  | promise =>
+    refine conOk_frame c _ h ?_ ?_ ?_ ?_ ?_ (hook_pc c nonce res v e) <;> (unfold hook; rw [hop])
   | rwr cb =>
     refine conOk_frame c _ h ?_ ?_ ?_ ?_ ?_ (hook_pc c nonce res v e) <;>
       (unfold hook; rw [hop]; simp only; (repeat' split) <;> rfl)
@@ -264,6 +266,20 @@ theorem cstep_inv_base (s s' : CSt) (e : Ev) (hi : CInv s) (hs : cstep s (.base 
     rename_i b' hst
     exact generic b' hst
 
+
+/-- the promise probe changes nothing -/
+theorem probeProm_step (s s' : CSt) (a : Nat) (h : Bool) (v e : Nat) (hs : cstep s (.probeProm a h v e) = some s') :
+    s' = s ∧ ∃ c, getCon s a = some c ∧ c.op = .promise ∧ c.pc = .awaiting ∧
+      c.prom = (if h then some (v, e) else none) ∧ cquiescent s = true := by
+  simp only [cstep] at hs
+  cases hc : getCon s a with
+  | none => simp [hc] at hs
+  | some c =>
+    simp only [hc] at hs
+    by_cases hg : c.op = .promise ∧ c.pc = .awaiting ∧ c.prom = (if h then some (v, e) else none) ∧ cquiescent s
+    · rw [if_pos hg] at hs
+      exact ⟨(Option.some.inj hs).symm, c, rfl, hg.1, hg.2.1, hg.2.2.1, hg.2.2.2⟩
+    · rw [if_neg hg] at hs; cases hs
 
 theorem cstep_inv (s s' : CSt) (e : CEv) (hi : CInv s) (hs : cstep s e = some s') : CInv s' := by
   have keep := fun (x : Nat) (y : Con) (hy : getCon s x = some y) => hi.cons x y hy
@@ -452,6 +468,7 @@ theorem cstep_inv (s s' : CSt) (e : CEv) (hi : CInv s) (hs : cstep s e = some s'
       simp only [hc] at hs
       split at hs <;> try simp at hs
       obtain ⟨_, rfl⟩ := hs; exact hi
+  | probeProm a h v e => rw [(probeProm_step s s' a h v e hs).1]; exact hi
   | probe v e =>
     simp only [cstep] at hs; split at hs <;> simp at hs; subst hs; exact hi
   | quiesce B =>
